@@ -1,3 +1,4 @@
+use std::cmp::Ordering;
 use anyhow::{bail, Result};
 use bc_components::{Digest, DigestProvider};
 #[cfg(feature = "encrypt")]
@@ -292,6 +293,14 @@ impl Envelope {
     pub(crate) fn new_with_assertions(subject: Self, assertions: Vec<Self>) -> Result<Self> {
         if !assertions.iter().all(|a| a.is_subject_assertion() || a.is_subject_obscured()) {
             bail!(EnvelopeError::InvalidFormat);
+        }
+        // The assertions of an encoded node must already be in strictly ascending
+        // digest order (which also rules out duplicates); anything else is not the
+        // canonical form and must be rejected rather than silently repaired.
+        for i in 1..assertions.len() {
+            if assertions[i - 1].digest().cmp(&assertions[i].digest()) != Ordering::Less {
+                bail!(EnvelopeError::InvalidFormat);
+            }
         }
         Ok(Self::new_with_unchecked_assertions(subject, assertions))
     }
